@@ -28,13 +28,18 @@ def showCtl (R : Render σ β) : Ctl σ Int β → String
   | .exiting s fin why => "X" ++ R.showS s ++ "/" ++ ",".intercalate (fin.map fun (k, v) => s!"{k}:{R.showV k v}") ++ "/" ++ showWhy why
   | .exited s why => "Z" ++ R.showS s ++ showWhy why
 
+def sortInts (xs : List Int) : List Int := (xs.toArray.qsort (· < ·)).toList
+
 /-- dynamic part of the state (history variables do not influence the future, except the
 sorted applied-multiset which the `a` move observes) -/
 def key (R : Render σ β) (nIn nOut : Nat) (p : Pool σ Int β) : String :=
-  let ws := (List.range p.nW).map fun i => showCtl R (p.ws i).ctl ++ "h" ++ showInts (p.ws i).hist
+  -- workers are interchangeable up to their input: sort their renderings (symmetry reduction);
+  -- of the histories only the multiset of consumed elements is observable (move `a`)
+  let ws := ((List.range p.nW).map fun i => s!"{(p.ws i).inp}" ++ showCtl R (p.ws i).ctl).toArray.qsort (· < ·) |>.toList
+  let hs := sortInts ((List.range p.nW).flatMap fun i => (p.ws i).hist)
   let is := (List.range nIn).map fun j => s!"{showInts (p.ins j).buf}{if (p.ins j).closed then "!" else ""}"
   let os := (List.range nOut).map fun k => s!"{",".intercalate ((p.outs k).buf.map (R.showV k))}{if (p.outs k).closed then "!" else ""}"
-  s!"{ws}|{is}|{os}|{p.toClose}|{p.cancelled}|{p.panicked}"
+  s!"{ws}|{hs}|{is}|{os}|{p.toClose}|{p.cancelled}|{p.panicked}"
 
 def lens (nIn nOut : Nat) (p : Pool σ Int β) : String :=
   "[" ++ ",".intercalate ((List.range nIn).map fun j => toString (p.ins j).buf.length) ++ ";" ++
@@ -81,7 +86,6 @@ def alive (closerProc : Bool) (drain : List Nat) (p : Pool σ Int β) : Nat :=
     (if closerProc && !p.toClose.isEmpty then 1 else 0) +
     (drain.filter fun k => !((p.outs k).closed && (p.outs k).buf.isEmpty)).length
 
-def sortInts (xs : List Int) : List Int := (xs.toArray.qsort (· < ·)).toList
 
 structure Cfg (σ β : Type) where
   st : Stage σ Int β
